@@ -512,6 +512,7 @@ func c17Store(c *Ctx) {
 				if res == "ok" {
 					out = fmt.Sprintf("root=%s mem=%d %s", in.id(root[:]), len(tdb.Nodes()), sShape(in, tr))
 					roots = append(roots, &rootRec{h: root, content: snapshot(), db: tdb})
+					c17CollectBlobs(tdb) // real hasher output for the d-stream (c17_decode.go)
 				}
 				c.Op("scommit "+dec, out)
 				c.Count("scommit")
